@@ -12,24 +12,33 @@ TARGETS = ["Props/C01.v"]
 
 MANIFEST = dict(
     text="Theorems (Rocq): for ALL histories of committed component messages x ALL compaction points x ALL leftovers of an "
-         "interrupted earlier compaction attempt, the node restarted from (snapshot file, log, last_applied) is "
-         "observationally equivalent on every component to the node that ran the history (C01_restart_reproduces), "
-         "given the components' snapshot round-trip laws and the C20 framing theorem as explicit premises; the snapshot "
-         "fan-out tables (build order, tree-name routing incl. the unknown-tree arm, tree names each component writes) "
-         "are REGENERATED from raftdata.rs and the component sources on every run and proved closed "
-         "(C01_tree_names_closed); the snapshot file round trip and the interrupted-compaction statement hold at full "
-         "strength for the repaired writer, with a refuted witness for the writer without truncate. Tied to the code by "
-         "the translator and by three correspondence suites on the real code: SnapshotWriter/Reader vs the file model, "
-         "load_snapshot routing vs the generated table, and multi-phase restarts of a full in-process single-node Raft "
-         "(all ClientRequest kinds, natural compactions, planted partial snapshot files) whose post-restart dump is "
-         "diffed against the pre-stop dump.",
-    note="proof, partial: the component internals (Config, Sequence, Namespace, Table, Naming, MCP, direct cache) enter "
-         "through the interface {apply; snapshot; load_record; observe} with the round-trip law as a hypothesis and are "
-         "validated here only by the restart harness (concrete Config/Sequence models belong to another package); "
+         "interrupted earlier compaction attempt, the node restarted from (snapshot file BYTES, log, last_applied) is "
+         "observationally equivalent on every component to the node that ran the history. Generic form "
+         "(C01_restart_reproduces) over a component interface with invariants; CONCRETE form without component, framing or "
+         "codec premises (C01_restart_reproduces_config_seq) for the ConfigActor store (cache with content/md5/type/desc/"
+         "history/last_modified, listed keys, history-id high-water mark: builder E's model), SequenceDbManager and the "
+         "TableManager rows: their snapshot round-trip laws are PROVED (C01_config_snapshot_roundtrip, "
+         "C01_component_roundtrip_laws) over byte-level codecs (LogSnapshotItem, ConfigValueDO/ConfigHistoryItemDO, "
+         "id_to_bin) built on the protobuf wire layer, and the C20 framing theorem chunking_invariance discharges the "
+         "file layer. The snapshot fan-out tables (build order, tree-name routing incl. the unknown-tree arm, tree names "
+         "each component writes) are REGENERATED from raftdata.rs and the component sources on every run and proved closed "
+         "(C01_tree_names_closed). Interrupted compaction: full strength for the repaired writer, refuted witness for the "
+         "writer without truncate; compaction racing with apply: exact on replay-idempotent components "
+         "(C01_restart_racy_idempotent), refuted on accumulating ones. Tied to the code by the translator and by "
+         "correspondence suites on the real code: SnapshotWriter/Reader vs the file model, load_snapshot routing vs the "
+         "generated table, REAL record / ConfigValueDO / id_to_bin bytes vs the model encoders and decoders, and "
+         "multi-phase restarts of a full in-process single-node Raft (all ClientRequest kinds, natural compactions, planted "
+         "partial snapshot files) whose post-restart dump is diffed against the pre-stop dump.",
+    note="proof, partial: Namespace, Naming, MCP and direct cache still enter only through the interface {apply; snapshot; "
+         "load_record; observe} with the round-trip law as hypothesis (known findings show that the law FAILS for cache, "
+         "MCP, namespace marker/weak flags); the concrete corollary assumes requests in scope (imported keys are "
+         "ConfigKeys, sequence key != SEQ_CONFIG, tables T_USER/T_CACHE, no temporary follower values) and an encodable "
+         "state at the compaction point (byte strings, u64 ids); UTF-8 validation of protobuf strings is not modelled; "
          "compaction concurrent with apply is only sampled; last_applied is assumed flushed at the stop point. Trusted: "
-         "Coq kernel+vm_compute, translators (self-tested), harness/runner glue, protobuf encoders as injective codecs.",
-    technique="Rocq proof (fold/fan-out lemmas over generated tables, file model over the C20 framing) + translator + "
-              "model/implementation correspondence + restart oracle on a real in-process node",
+         "Coq kernel+vm_compute, translators (self-tested), harness/runner glue.",
+    technique="Rocq proof (fold/fan-out lemmas over generated tables, file model over the C20 framing, protobuf codecs over "
+              "PbWire, concrete component models) + translator + model/implementation correspondence + restart oracle "
+              "on a real in-process node",
     design="3/C01",
 )
 
@@ -276,7 +285,34 @@ def classify_restart_diff(comp, a, b, case):
     return "none"
 
 
-HEADER = "From RN Require Import SM.Replay RaftLog.SnapFile.\nOpen Scope N_scope.\nOpen Scope string_scope.\n"
+HEADER = ("From RN Require Import SM.Replay RaftLog.SnapFile SM.SnapCodec SM.Concrete SM.ConcreteNs.\n"
+          "Open Scope N_scope.\nOpen Scope string_scope.\n")
+
+
+def coq_bytes(b):
+    return "[" + ";".join(str(x) for x in b) + "]%N"
+
+
+def coq_opt_bytes(s):
+    return "None" if s is None else "(Some %s)" % coq_bytes(list(s.encode("utf-8")))
+
+
+def coq_value_of_dump(get, hist_newest_first):
+    """a cvalue from what the real ConfigActor answers (GET + history page): only the fields that
+    ConfigValueDO carries matter for enc_value"""
+    hs = []
+    for h in reversed(hist_newest_first):
+        hs.append("mkHist %d %s %d %s" % (h["id"], coq_bytes(list(h["content"].encode("utf-8"))), h["modified_time"],
+                                           coq_opt_bytes(h.get("op_user"))))
+    return "(mkVal %s [] false [%s] %s %s 0)" % (
+        coq_bytes(list(get["content"].encode("utf-8"))), ";".join(hs), coq_opt_bytes(get.get("config_type")),
+        coq_opt_bytes(get.get("desc")))
+
+
+def model_opt_bytes(v):
+    if v == "None":
+        return None
+    return bytes(v[1]).decode("utf-8", "replace")
 
 
 def run(chk, replay=None):
@@ -369,7 +405,7 @@ def run(chk, replay=None):
     r_impl = lib.harness_run("dispatch", route_cases, env=env)
     try:
         r_model = lib.coq_eval_sharded("c01rt", HEADER, ["route load_arms %s %s" % (
-            lib.coq_string(c["tree"]), lib.coq_string(bytes(c["key"]).decode("utf-8", "replace"))) for c in route_cases], per=50)
+            coq_bytes(list(c["tree"].encode("utf-8"))), coq_bytes(c["key"])) for c in route_cases], per=50)
     except RuntimeError as ex:
         chk.violation("model evaluation failed: %s" % str(ex)[:300], {"broken": "model evaluation", "log": str(ex)[-3000:]}, False)
         r_model = None
@@ -391,6 +427,131 @@ def run(chk, replay=None):
             chk.violation("model != implementation (load_snapshot routing of tree %r key %r): model %s impl %s" % (
                 c["tree"], bytes(c["key"])[:12], want, got),
                 {"suite": "dispatch/route", "case": c, "model": want, "impl": r, "correspondence": "Gen.SnapshotTables.load_arms"}, False)
+
+    # ---- B2. record codecs: real bytes vs SM/SnapCodec.v -------------------------------------------------
+    # (i) LogSnapshotItem frames as the real SnapshotWriter wrote them (snapfile suite) vs frame (enc_item r), and
+    #     dec_item_frame on the real frame; (ii) ConfigValueDO bytes of the real ConfigActor snapshot records vs
+    #     enc_value of the value the real actor serves, and dec_value on the real bytes; (iii) id_to_bin vs be8
+    exprs, meta = [], []
+    for c, r in list(zip(sf_cases, sf_impl))[:60]:
+        if r.get("r") != "ok":
+            continue
+        for rec, fr in list(zip(c["recs"], r["frames"]["records"]))[:3]:
+            if len(fr) > 700:
+                continue
+            tree, key, val = rec
+            rc = "(mkRec %s %s %s)" % (coq_bytes(list(tree.encode("utf-8"))), coq_bytes(key), coq_bytes(val))
+            exprs.append("(frame (enc_item %s), dec_item_frame %s)" % (rc, coq_bytes(fr)))
+            meta.append(("item", rec, fr))
+    samples_d = lib.harness_run("dispatch", [{"k": "samples"}], env=env)[0]["samples"]
+    gd = c07.Gen(rng, samples_d)
+    dcases = [{"reqs": [q for q in gd.sequence(rng.choice([8, 20, 40]))], "batches": [], "via": "direct"} for _ in range(24 if tier == "quick" else 200)]
+    douts = lib.harness_run_parallel("dispatch", dcases, env=env)
+    seen_vals = set()
+    for dc, do in zip(dcases, douts):
+        if do.get("r") != "ok":
+            continue
+        dump = do["leader"]["dump"]
+        views = {x["key"]: x for x in dump["config"]["keys"]}
+        for rec in dump["snapshot"]:
+            if rec["tree"] == "T_CONFIG":
+                key = bytes.fromhex(rec["key"]).decode("utf-8", "replace")
+                v = views.get(key)
+                if not v or not v.get("get") or rec["value"] in seen_vals or len(rec["value"]) > 1200:
+                    continue
+                seen_vals.add(rec["value"])
+                real = list(bytes.fromhex(rec["value"]))
+                exprs.append("(enc_value %s, dec_value %s)" % (coq_value_of_dump(v["get"], v["history"]["list"]), coq_bytes(real)))
+                meta.append(("value", v, real))
+            elif rec["tree"] == "T_NAMESPACE" and rec["value"] not in seen_vals:
+                seen_vals.add(rec["value"])
+                nid = bytes.fromhex(rec["key"]).decode("utf-8", "replace")
+                ent = [x for x in dump["namespace"]["sorted"] if x["id"] == nid]
+                # the marker record is written without being a namespace of the live actor
+                name, flag = (ent[0]["name"], ent[0]["flag"]) if ent else ("", 2)
+                real = list(bytes.fromhex(rec["value"]))
+                if nid == "__already_sync" and bytes(real[2 + len(nid):4 + len(nid)]) == b"\x12\x00":
+                    name, flag = "", 2      # the marker record itself (a namespace with this id may exist as well)
+                exprs.append("(enc_ns %s %s (db_type %d), dec_ns %s)" % (
+                    coq_bytes(list(nid.encode("utf-8"))), coq_bytes(list(name.encode("utf-8"))), flag, coq_bytes(real)))
+                meta.append(("ns", (nid, name, flag), real))
+            elif rec["tree"] == "T_SEQUENCE" and len(seen_vals) < 400:
+                real = list(bytes.fromhex(rec["value"]))
+                n = int.from_bytes(bytes(real), "big")
+                if ("seq", n) in seen_vals:
+                    continue
+                seen_vals.add(("seq", n))
+                exprs.append("(be8 %d, of_be8 %s)" % (n, coq_bytes(real)))
+                meta.append(("be8", n, real))
+    try:
+        cvals = lib.coq_eval_sharded("c01cd", HEADER, exprs, per=12) if exprs else []
+    except RuntimeError as ex:
+        chk.violation("model evaluation failed: %s" % str(ex)[:300], {"broken": "model evaluation", "log": str(ex)[-3000:]}, False)
+        cvals = []
+    codec_counts = {"item": 0, "value": 0, "be8": 0, "ns": 0}
+    for (kind, a, real), mv in zip(meta, cvals):
+        n_eval += 1
+        codec_counts[kind] += 1
+        enc, dec = mv
+        bad = None
+        if list(enc) != list(real):
+            bad = "encoder bytes differ: model %s real %s" % (list(enc)[:24], list(real)[:24])
+        elif kind == "item":
+            want = [list(a[0].encode("utf-8")), list(a[1]), list(a[2])]
+            got = None if dec == "None" else [list(dec[1]["rtree"]), list(dec[1]["rkey"]), list(dec[1]["rval"])]
+            if got != want:
+                bad = "dec_item_frame(real frame) = %s, written record %s" % (got, want)
+        elif kind == "ns":
+            ok_dec = isinstance(dec, tuple) and dec[0] == "Ok" and model_opt_bytes(dec[1]["nd_id"]) == a[0] \
+                and model_opt_bytes(dec[1]["nd_name"]) == a[1] and model_opt_bytes(dec[1]["nd_type"]) == ("0" if a[2] == 1 else "2")
+            if not ok_dec:
+                bad = "dec_ns(real bytes) = %s, namespace %s" % (str(dec)[:80], a)
+        elif kind == "be8":
+            if dec == "None" or dec[1] != a:
+                bad = "of_be8(real bytes) = %s, value %s" % (dec, a)
+        else:
+            if not (isinstance(dec, tuple) and dec[0] == "Ok"):
+                bad = "dec_value(real bytes) = %s" % str(dec)[:60]
+            else:
+                d = dec[1]
+                got = (bytes(d["do_content"]).decode("utf-8", "replace"), model_opt_bytes(d["do_type"]), model_opt_bytes(d["do_desc"]),
+                       [(h["h_id"], bytes(h["h_content"]).decode("utf-8", "replace"), h["h_time"], model_opt_bytes(h["h_user"])) for h in d["do_hist"]])
+                g = a["get"]
+                want = (g["content"], g.get("config_type"), g.get("desc"),
+                        [(h["id"], h["content"], h["modified_time"], h.get("op_user")) for h in reversed(a["history"]["list"])])
+                if got != want:
+                    bad = "dec_value(real bytes) != served value: %s" % lib.diff_first(list(got), list(want))
+        if bad:
+            mism += 1
+            chk.violation("model != implementation (%s codec): %s" % (kind, bad),
+                          {"suite": "snapfile/dispatch", "kind": kind, "case": a if kind != "value" else a.get("key"), "real": real,
+                           "correspondence": "SM.SnapCodec"}, False)
+        else:
+            nontrivial.add(("codec", kind, len(real)))
+
+    # ---- B3. the exclusion of cfg_inv (no temporary values) on the real actors: the model's refuted
+    #      statement C01_tmp_value_snapshot_refuted replayed (SetTmpValue -> snapshot -> load -> commit)
+    tkey = "d\x02g"
+    tcase = {"k": "tmp_snapshot", "key": tkey, "content": "v",
+             "commit": {"ConfigSet": {"key": tkey, "value": "v", "config_type": None, "desc": None, "history_id": 1,
+                                      "history_table_id": None, "op_time": 10, "op_user": None}}}
+    tr = lib.harness_run("dispatch", [tcase], env=env)[0]
+    n_eval += 1
+    if tr.get("r") != "ok":
+        chk.violation("tmp_snapshot case failed: %s" % json.dumps(tr)[:200], {"suite": "dispatch", "case": tcase, "impl": tr}, True)
+    else:
+        def hist_total(d):
+            return [x["history"]["total"] for x in d["config"]["keys"] if x["key"] == tkey]
+        ha, hb = hist_total(tr["a_committed"]), hist_total(tr["b_committed"])
+        chk.notes["tmp_value_snapshot"] = {"live_history_total": ha, "restarted_history_total": hb, "model": [[1], [0]]}
+        if ha != hb:
+            chk.classify("C01:tmp-value-snapshot-loses-history",
+                         "history of a config whose temporary value was snapshotted: live %s, restarted %s" % (ha, hb),
+                         {"suite": "dispatch", "case": tcase, "live": ha, "restarted": hb})
+        if (ha, hb) != ([1], [0]):
+            mism += 1
+            chk.violation("model != implementation (temporary value through a snapshot): model ([1],[0]) impl (%s,%s)" % (ha, hb),
+                          {"suite": "dispatch", "case": tcase, "impl": [ha, hb], "correspondence": "SM.ConcreteInst.tmp_value_snapshot_refuted"}, False)
 
     # ---- C. restart oracle on a real single-node Raft ------------------------------------------------------
     samples = lib.harness_run("dispatch", [{"k": "samples"}], env=env)[0]["samples"]
@@ -479,14 +640,15 @@ def run(chk, replay=None):
     chk.cov["input_distribution"] = {"snapfile_cases": len(sf_cases), "route_cases": len(route_cases), "restart_histories": len(rcases),
                                      "phases_with_catalogued_snapshot": compactions, "planted_partial_snapshots": planted,
                                      "requests_per_variant": var_count, "model_impl_mismatches": mism,
+                                     "codec_comparisons": codec_counts,
                                      "restart_differences_by_component_and_key": diff_count,
                                      "out_of_scope_table_differences_not_judged": out_of_scope,
                                      "restarts_with_shorter_raft_log": log_lost}
     chk.assumptions += [
-        "C20 framing theorem (chunking invariance of MessageBufReader) in the 1024-byte-block instance: premise of the file-level theorems",
-        "component round-trip laws (snapshot -> load_record reproduces an observationally equivalent state) and snap_routed: premises, "
-        "validated by the restart harness on the real actors",
-        "protobuf record/header encoders are faithful codecs (dec(frame(enc r)) = r), header frame fits the first 1024-byte read",
+        "generic theorems: component round-trip laws and snap_routed are premises; DISCHARGED for Config, Sequence and Table rows "
+        "(SM/Concrete.v), still premises for Namespace, Naming, MCP, direct cache (validated / refuted by the restart harness)",
+        "concrete corollary: requests in scope (n_mok), encodable state at the compaction point (n_ok), header frame fits the first "
+        "1024-byte read; protobuf string fields are byte strings (UTF-8 validation not modelled)",
         "the stop point is after quiescence and flush: last_applied on disk = last committed index",
         "compaction concurrent with apply (a snapshot containing effects of entries beyond its last_index) is only sampled",
     ]
